@@ -279,6 +279,9 @@ class Worker(threading.Thread):
                 self.job()
             except Exception as x:
                 log.exception("unhandled exception from job in worker thread %s: %s", self.name, x)
+            except BaseException as x:
+                # (SystemExit and the like raised by a remote method: the job has ended, this worker is still the pool's)
+                log.warning("job in worker thread %s ended with %r", self.name, x)
             self.job = None
             self.pool.notify_done(self)
         self.pool = None
